@@ -21,7 +21,7 @@ set_option linter.unusedSectionVars false
 namespace TW
 
 /-- `np.floor` on the reals -/
-noncomputable instance : HasFloor ℝ := ⟨fun x => ((⌊x⌋ : ℤ) : ℝ)⟩
+noncomputable instance : HasFloorK ℝ := ⟨fun x => ((⌊x⌋ : ℤ) : ℝ)⟩
 
 @[simp] theorem k180_eq : (k180 : ℝ) = 180 := by simp [k180]
 @[simp] theorem k360_eq : (k360 : ℝ) = 360 := by simp [k360]
@@ -85,7 +85,7 @@ theorem atan2deg_polar {r : ℝ} (hr : 0 < r) (t : ℝ) :
 /-! ### `np.mod(·, 360)` and the skew wrap -/
 
 theorem mod360_eq (a : ℝ) : mod360 a = a - ((⌊a / 360⌋ : ℤ) : ℝ) * 360 := by
-  simp [mod360, HasFloor.floor]
+  simp [mod360, HasFloorK.floor]
 
 theorem mod360_range (a : ℝ) : 0 ≤ mod360 a ∧ mod360 a < 360 := by
   rw [mod360_eq]
